@@ -100,6 +100,7 @@ static inline Int gen_int(ByteSource& in, size_t maxlimbs, bool allow_neg = true
 
 // ---- description helpers ------------------------------------------------------
 static inline std::string show(const Int& a, size_t maxhex = 96) {
+  static const bool full = getenv("VERIF_FULLHEX") != nullptr; if (full) maxhex = 1u << 30;
   std::string h = ref::hex(a.abs());
   if (h.size() > maxhex) h = h.substr(0, maxhex / 2) + ".." + h.substr(h.size() - maxhex / 2) + "(" + std::to_string(a.size()) + " limbs)";
   return (a.neg ? "-0x" : "0x") + h;
